@@ -30,5 +30,36 @@ int main(int argc, char** argv)
 		if (!(h == s) || !(s == h)) { printf("REPRODUCED Var == depends on the string representation\n"); return 1; }
 		printf("OK\n"); return 0;
 	}
+	if (cmd == "battery") {            // small-scope search over the operations the C04 units verify
+		// Var = String: every target kind x every length 0..20 (7/8 inline boundary), neighbours guarded
+		for (int kind = 0; kind < 4; kind++) for (int n = 0; n <= 20; n++) {
+			std::string t; for (int i = 0; i < n; i++) t.push_back(char('a' + i));
+			struct { unsigned char g0[16]; Var v; unsigned char g1[16]; } box; for (int i = 0; i < 16; i++) box.g0[i] = box.g1[i] = 0xA5;
+			if (kind == 1) box.v = 5; else if (kind == 2) box.v = String("abc"); else if (kind == 3) box.v = String("a fairly long string");
+			box.v = String(t.c_str());
+			for (int i = 0; i < 16; i++) if (box.g0[i] != 0xA5 || box.g1[i] != 0xA5) { printf("REPRODUCED Var = String(%d chars) onto target kind %d wrote outside the Var\n", n, kind); return 1; }
+			if (!box.v.is(Var::STRING) || std::string(*box.v.toString()) != t) { printf("REPRODUCED Var = String(%d chars) onto target kind %d lost the text\n", n, kind); return 1; }
+			// == must depend on the text only: inline vs heap representation of the same / a different text
+			Var heap = String("a fairly long string!"); heap = String(t.c_str()); Var fresh = String(t.c_str()); Var other = String((t + "x").c_str());
+			if (!(heap == fresh) || !(fresh == heap) || heap == other || other == heap || fresh == Var(5)) { printf("REPRODUCED Var == on strings of %d chars depends on the representation\n", n); return 1; }
+		}
+		// a = own child, for scalar, short/long string, array and object children, by index and by key
+		for (int child = 0; child < 6; child++) {
+			Var c; if (child == 0) c = 7; else if (child == 1) c = 2.5; else if (child == 2) c = "short"; else if (child == 3) c = "a string that is long enough for the heap"; else if (child == 4) { c = Var::ARRAY; c << 1 << "two"; } else { c["k"] = 1; c["l"] = "x"; }
+			Var expect = c.clone();
+			{ Var a = Var::ARRAY; a << c.clone() << Var("second") << 3; a = a[0]; if (!(a == expect)) { printf("REPRODUCED a = a[0] with child kind %d\n", child); return 1; } }
+			{ Var a = Var::ARRAY; a << 1 << c.clone(); a = a[1]; if (!(a == expect)) { printf("REPRODUCED a = a[1] with child kind %d\n", child); return 1; } }
+			{ Var o; o["x"] = c.clone(); o["y"] = 2; o = o["x"]; if (!(o == expect)) { printf("REPRODUCED o = o[\"x\"] with child kind %d\n", child); return 1; } }
+			{ Var n = Var::ARRAY; Var in = Var::ARRAY; in << 0 << c.clone(); n << in; n[0] = n[0][1]; if (!(n[0] == expect)) { printf("REPRODUCED n[0] = n[0][1] with child kind %d\n", child); return 1; } }
+		}
+		// clone(): deep at every level - changing the original's nested containers afterwards must not show in the clone, and vice versa
+		{ Var o; o["name"] = "n"; o["list"] = Var::ARRAY; o["list"] << 1 << 2; o["sub"]["deep"] = Var::ARRAY; o["sub"]["deep"] << "a"; o["sub"]["v"] = 1;
+		  Var c = o.clone(); if (!(c == o)) { printf("REPRODUCED clone != original\n"); return 1; }
+		  o["list"] << 3; o["sub"]["deep"] << "b"; o["sub"]["v"] = 2;
+		  if (c["list"].length() != 2 || c["sub"]["deep"].length() != 1 || !(c["sub"]["v"] == Var(1))) { printf("REPRODUCED clone of an object shares a nested container with the original\n"); return 1; }
+		  c["list"] << 9 << 9; if (o["list"].length() != 3) { printf("REPRODUCED original changed through its clone\n"); return 1; } }
+		{ Var a = Var::ARRAY; Var in = Var::ARRAY; in << 1; a << in << "s"; Var c = a.clone(); a[0] << 2; if (c[0].length() != 1) { printf("REPRODUCED clone of an array shares a nested array\n"); return 1; } }
+		printf("OK\n"); return 0;
+	}
 	return 2;
 }
